@@ -200,6 +200,9 @@ def block_error_codes(fn, b, enum_suffixes=ERR_ENUMS):
                 for name, d in adt.get("discrs", []):
                     if d == k["v"]:
                         codes.add(name)
+        elif item[0] == "const" and "::error::" in (item[2].get("c") or ""):
+            # the SDK's errors are named string constants (constants::error::X)
+            codes.add(item[2]["c"].rsplit("::", 1)[-1])
     return codes
 
 
